@@ -200,7 +200,12 @@ def pop_op(rng, st, op):
         if rng.random() < 0.3:
             m.set_parameter_names(None)
             return 'set_parameter_names(reset)'
+        before = list(names)
         m.set_parameter_names(['p%d' % i for i in range(m.n_parameters())])
+        after = st.full_names()
+        st.renamed_fixed = [
+            (before[i], after[i]) for i in sorted(st.fixed)
+            if i < len(after) and after[i] != before[i]]
         return 'set_parameter_names(custom)'
     if op == 'fix' and st.reduced:
         if not unique:
@@ -341,6 +346,13 @@ def _pop_history(ctx, rng, leaves, n_ids, reduced, ops, tag, nest=None):
             return
         if d is None:
             continue
+        if getattr(st, 'renamed_fixed', None):
+            # naming the free parameters leaves the fixed ones alone (they
+            # stay addressable by the names they were fixed under)
+            _bad(ctx, 'fixed_parameter_renamed',
+                 {'renamed': st.renamed_fixed, 'ops': st.ops + [d],
+                  'leaves': codes}, feats)
+            return
         st.ops.append(d)
         feats['ops'] = [o.split('(')[0] for o in st.ops]
         ctx.count('reconfiguration_steps')
